@@ -59,6 +59,19 @@ class C07(WigBedProp):
             out.append(CaseT(f"z{k}", "bed" if self.bed else "wig", [], lines, self.common_tags(o, names, data, tags)))
         for k in range(8 if tier == "thorough" else 2):
             out.append(bbgen.short_dest_case(rng.fork(f"shortdest{k}"), f"shortdest{k}", self.bed, zoom_queries=True))
+        if self.bed:
+            # a deep pile-up: more than 4096 entries over the same bases — the first depth whose square is not a single-precision number
+            for g in range(3 if tier == "thorough" else 1):
+                r = rng.fork(f"pileup{g}")
+                depth = r.choice([4097, 5001, 6007])
+                names, sizes = ["chr1", "chr2"], {"chr1": 1000, "chr2": 500}
+                data = {"chr1": [(100, 260, "")] * depth + [(300, 310, "")], "chr2": [(5, 50, "")]}
+                # resolutions that are not powers of two: depth² · bases then needs its own rounding (with 16 or 64 bases the product
+                # of a rounded square happens to round to the same single-precision number)
+                o = {"compress": 1, "ips": 1024, "bs": 256, "zooms": "10,40,160", "pass": 1 + g % 2, "inmem": 0, "rt": "mt", "threads": 2, "chan": 100,
+                     "src": "iter", "sort": "all"}
+                lines = [bbgen.opt_line(o)] + bbgen.bed_lines(names, sizes, data) + [f"Q zoom {n} 0 {sizes[n]} #{lv}" for lv in (0, 1, 2) for n in names]
+                out.append(CaseT(f"pileup{g}", "bed", [], lines, {"bed", "pile_up_deeper_than_4096", "multi_chrom", "nt"}))
         # zoom levels of files no bigtools writer produces (big-endian zoom records and indexes, other layouts)
         out += self.foreign_cases(rng.fork("foreign"), tier, self.bed, 50, 300)
         return out
